@@ -255,6 +255,24 @@ impl<'a> Table {
         })
     }
 //!end
+//!fn src/core/tracking.rs Table::open_run rules=R10 props=C13,C12
+    pub(crate) fn open_run(&'a self, Tracked(w): Tracked<&mut World>) -> ⟦(res: ⟧Result<Run, MonorailError>⟦)⟧
+@        ensures
+@            // C13 / C12: reading the pointer is Run::open of <dir>/run.json and nothing else: no file changes
+@            final(w).fs =~= old(w).fs, // [C13]
+@            res matches Ok(r) ==> old(w).fs.dom().contains(self.run_path@) && json_parse::<Run>(old(w).fs[self.run_path@]) is Some && r.id == json_parse::<Run>(old(w).fs[self.run_path@])->Some_0.id, // [C12]
+    {
+        Run::open(&self.run_path, Tracked(w))
+    }
+//!end
+//!fn src/core/tracking.rs Table::open_checkpoint rules=R10 props=C19,C13
+    pub(crate) fn open_checkpoint(&'a self, Tracked(w): Tracked<&mut World>) -> ⟦(res: ⟧Result<Checkpoint, MonorailError>⟦)⟧
+@        requires recoverable(*old(w)),
+@        ensures final(w).fs == old(w).fs, // [C13,C19]
+    {
+        Checkpoint::open(&self.checkpoint_path, Tracked(w))
+    }
+//!end
 }
 } // verus!
 fn main() {}
